@@ -94,6 +94,9 @@ def mkThenItem (c : Char) : Option ThenItem :=
   if c == 'r' then some (.empty (xnmTag "reject" "reject" [] none))
   else if c == 'a' then some (.empty (xnmTag "accept" "accept" [] none))
   else if c == 'e' then some (.elem (xnmTag "next" "next" [] none) [.text "policy"])
+  -- an action Junos renders as a container with a same-named leaf: `<metric><metric>100</metric></metric>`
+  else if c == 'm' then some (.elem (xnmTag "metric" "metric" [] none)
+      [.start (xnmTag "metric" "metric" [] none), .text "100", .end "metric"])
   else if c == 'x' then some (.text "x")
   else if c == 'd' then some .cdata
   else if c == 'k' then some .comment
@@ -102,6 +105,7 @@ def mkThenItem (c : Char) : Option ThenItem :=
 def mkBodyItem (s : String) : Option BodyItem :=
   if s == "E" then some (.elem (xnmTag "term" "term" [] none) [])
   else if s == "M" then some (.empty (xnmTag "apply-groups" "apply-groups" [] none))
+  else if s == "G" then some (.elem (xnmTag "tag" "tag" [] none) [.start (xnmTag "tag" "tag" [] none), .text "7", .end "tag"])
   else if s == "X" then some (.text "x")
   else if s == "D" then some .cdata
   else if s == "K" then some .comment
